@@ -1002,16 +1002,28 @@ package query
 // loader goroutine touches the cell of pos); rows travel through the channel. (pos used to be a plain int written
 // by the reader while the builder read it: fix 5747565.) The error slot err is handed over by close(rowch) / panicCh
 // (channel happens-before), which this engine does not model: assumed.
+// C02 / C19: every row received from the reader is appended to the record set and the rows collected before it stay
+// where they are, also across the one-off regrow (a regrow that cuts the set back to its first 300 rows loses records).
+//@ func sync/atomic.LoadInt64
+//@   trusted assumed: atomic load; writes nothing
+//@   modifies nothing
 //@ func readRecordSet$1
-//@   property C19 C13
+//@   property C19 C13 C02
 //@   safety
 //@   atomiconly pos
+//@   goroutineowns recordSet
+//@   loop 1 step [one-row-appended-earlier-rows-kept] len(recordSet) == old(len(recordSet)) + 1 && forall(q, 0, old(len(recordSet)), recordSet[q] == old(recordSet[q]))
 //@ func readRecordSet$2
 //@   property C13
 //@   atomiconly pos
+//@ func (*go-text/json.Object).Keys
+//@   trusted assumed (read from go-text json/structure.go): builds a fresh list of the member keys; writes nothing else
+//@   modifies fresh
 //@ func loadViewFromJsonLinesFile$1
-//@   property C13
+//@   property C13 C02 C19
 //@   atomiconly pos
+//@   goroutineowns objectList
+//@   loop 1 step [one-object-appended-earlier-objects-kept] len(objectList) == old(len(objectList)) + 1 && forall(q, 0, old(len(objectList)), objectList[q] == old(objectList[q]))
 //@ func loadViewFromJsonLinesFile$2
 //@   property C13
 //@   atomiconly pos
